@@ -274,6 +274,7 @@ def r2_sequence(program, folder, rep):
                 "carries no block count", c_start)
         return
     cnt = fl.sym(arg3, n_start) + 1          # announced = arg3 + 1
+    cnt_cases = None
     # the blocks sent are the consecutive BOOT_BYTE_SIZE pieces of the
     # image, which is bytes(<the buffer that was spliced>)
     T = Terms(fn)
@@ -322,6 +323,13 @@ def r2_sequence(program, folder, rep):
                                         "number over a count that is not "
                                         "the announced one; not analysed")
                 ok, by_number = True, k_
+    if not ok and IMG is not None and piece[0] == "item" and \
+            piece[1] == IMG and piece[2][0] == "slice" and any(
+                st_[0] in ("mu", "phi") for st_ in subterms(piece[2][1])):
+        # image[first:end] for a window moved along by assignments in the
+        # loop: where the window is on each pass is not worked out here
+        raise AnalysisError("boot: the blocks are cut by a window moved "
+                            "along the image; not analysed")
     rep.check(ok, "C20-R2", inst, "the blocks sent are the consecutive "
               "%d-byte pieces of the image, in order (same constant as the "
               "announced count uses)" % B, construct="block slicing",
@@ -347,6 +355,26 @@ def r2_sequence(program, folder, rep):
         same = list(eq(Lb2, Lb)) if Lb2 != Lb else []
         ok = fl.prove(n_start, goal, extra=[lt(0, Lb)] + same,
                       use_facts=False)
+        if not ok:
+            # by cases when the count is the quotient plus one if there is
+            # a remainder
+            from ..casesplit import remainder_cases, sym_term
+            try:
+                cnt_cases = remainder_cases(
+                    T, fl, arg3, T.cfg.node_containing(c_start), n_start)
+            except AnalysisError:
+                cnt_cases = None
+            if cnt_cases is not None and len(cnt_cases) == 2:
+                ok = True
+                # (the length through its value term, as the count is)
+                Lt = sym_term(fl, T.term(
+                    ast.parse("len(%s)" % buf, mode="eval").body,
+                    T.cfg.node_containing(c_start)), n_start)
+                for extra_, tv_ in cnt_cases:
+                    c_ = sym_term(fl, tv_, n_start) + 1
+                    ok = ok and fl.prove(
+                        n_start, [lt(B * (c_ - 1), Lt), le(Lt, B * c_)],
+                        extra=[lt(0, Lt)] + list(extra_), use_facts=False)
         rep.check(ok, "C20-R2", inst, "announced count (arg3 + 1) = "
                   "ceil(len(image) / %d): %d*(n-1) < len <= %d*n" % (B, B,
                                                                      B),
